@@ -234,7 +234,10 @@ class HTTP2Connection(ConnectionInterface):
         # In order to gracefully handle HTTP/1.1 and HTTP/2 we always require
         # HTTP/1.1 style headers, and map them appropriately if we end up on
         # an HTTP/2 connection.
-        authority = [v for k, v in request.headers if k.lower() == b"host"][0]
+        hosts = [v for k, v in request.headers if k.lower() == b"host"]
+        if not hosts:
+            raise LocalProtocolError("Missing mandatory Host: header")
+        authority = hosts[0]
 
         headers = [
             (b":method", request.method),
